@@ -78,10 +78,19 @@ fn emit(ctx: &mut Ctx, id: &mut u64, m: Value, hcap: u64) {
         return;
     }
     *id += 1;
-    // the bound is attained for plain Periodic / Sporadic models (C10)
-    let attained = matches!(kind(&m), "periodic" | "sporadic");
+    // the bound is attained for plain Periodic / Sporadic models (C10) and for auto-extrapolating
+    // super-additive prefixes (the tight curve of the prefix-respecting sequences)
+    let attained = matches!(kind(&m), "periodic" | "sporadic")
+        || (kind(&m) == "xcurve" && crate::gen::is_superadditive(&us(&m["of"]["d"])));
     let nontrivial = out.as_array().unwrap().iter().collect::<std::collections::HashSet<_>>().len() > 2;
     ctx.sink.raw(&json!({"id": *id, "gens": gens, "eta": out, "m": m, "attained": attained, "nontrivial": nontrivial}));
+    // the compact recogniser of Sched.tla / Ros2Exec.tla against the same table (see ArrivalProc.tla)
+    if matches!(kind(&m), "periodic" | "sporadic") {
+        *id += 1;
+        let j = m.get("J").and_then(|x| x.as_u64()).unwrap_or(0);
+        ctx.sink.raw(&json!({"id": *id, "gens": [{"gen": "csporadic", "T": m["T"], "J": j, "X": 0}], "eta": out, "m": m,
+                             "attained": true, "nontrivial": nontrivial, "compact": true}));
+    }
 }
 
 pub fn run_procs(ctx: &mut Ctx) {
